@@ -1328,7 +1328,11 @@ def _sem_atoms(atoms, env):
     for (op, lc, rc, l, r) in atoms:
         if op not in ('==', '!='):
             continue
-        if {last_member(l), last_member(r)} == {STAMP, COUNTER}:
+        # a local that holds the value the round counter has now (env 'C': set by `v = <counter>`, dropped when the counter is
+        # written or user code runs) stands for the counter
+        kl = COUNTER if _env_get(env, local_name(l) or '') == 'C' else last_member(l)
+        kr = COUNTER if _env_get(env, local_name(r) or '') == 'C' else last_member(r)
+        if {kl, kr} == {STAMP, COUNTER}:
             out.append(('differs', op == '!='))
         elif rc == '0' and (last_member(l) == CURRENT or _env_get(env, local_name(l) or '') == 'R'):
             out.append(('running', op == '!='))
@@ -1406,8 +1410,10 @@ def _target_alts(x, env, atoms):
                 val = _env_get(env, '%s[%d]' % (local_name(strip_load(x['base'])), i))
                 out.append((val if val in ('P', 'R') else '?', facts))
             return out
+    if last_member(x) == COUNTER and isinstance(x, dict) and x.get('k') == 'member':
+        return [('C', frozenset())]           # (not a list) the value the round counter has now: a local may cache it
     n = local_name(x)
-    if n is not None and _env_get(env, n) in ('P', 'R'):
+    if n is not None and _env_get(env, n) in ('P', 'R', 'C'):
         return [(_env_get(env, n), frozenset())]
     return [('?', frozenset())]
 
@@ -1463,13 +1469,15 @@ def link_alts(g):
             if STAMP in keys or COUNTER in keys:
                 atoms = frozenset(a for a in atoms if a[0] != 'differs')
                 env = frozenset(x for x in env if not (isinstance(x[1], tuple) and x[1][0] == 'b'))
+            if COUNTER in keys:
+                env = frozenset(x for x in env if x[1] != 'C')
             if CURRENT in keys:
                 atoms = frozenset(a for a in atoms if a[0] != 'running')
                 env = frozenset(x for x in env if x[1] != 'R' and not (isinstance(x[1], tuple) and x[1][0] == 'b'))
             return (env, atoms, n)
         if ev == 'call':
             if 'fnexpr' in e:
-                return (frozenset(x for x in env if x[1] != 'R' and not (isinstance(x[1], tuple) and x[1][0] == 'b')), frozenset(), n)
+                return (frozenset(x for x in env if x[1] not in ('R', 'C') and not (isinstance(x[1], tuple) and x[1][0] == 'b')), frozenset(), n)
             if is_task_link(e):
                 return (env, atoms, min(n + 1, 2))
             for a in e.get('args', []):
@@ -1999,3 +2007,225 @@ class ArmFlow:
                 res = None
             return (armed, res, env, taint)
         return s
+
+
+# --------------------------------------------------------------------------
+# R-C06h: integer types of round values (stamp, counter and what carries a round from one to the other)
+# --------------------------------------------------------------------------
+
+_QUALS = ('const', 'volatile', 'register', 'restrict', '__restrict', '_Atomic', 'static', 'extern')
+_FIXED = re.compile(r'^(?:(u)_?int|(__u)|(__s)|int)(?:_least)?(8|16|32|64)(?:_t)?$')
+_NAMED = {'size_t': (64, False), 'ssize_t': (64, True), 'uintptr_t': (64, False), 'intptr_t': (64, True), 'ptrdiff_t': (64, True),
+          'uintmax_t': (64, False), 'intmax_t': (64, True), 'off_t': (64, True), 'time_t': (64, True),
+          'u_char': (8, False), 'u_short': (16, False), 'u_int': (32, False), 'u_long': (64, False),
+          'uchar': (8, False), 'ushort': (16, False), 'uint': (32, False), 'ulong': (64, False)}
+
+
+def _basic_int(toks):
+    """(bits, signed) of a type spelled with the C keywords only (`unsigned short int`, `long unsigned`, `signed`), LP64"""
+    if not toks or any(t not in ('unsigned', 'signed', 'char', 'short', 'int', 'long', '__signed__', '__signed') for t in toks):
+        return None
+    signed = 'unsigned' not in toks
+    if 'char' in toks:
+        return (8, signed)
+    if 'short' in toks:
+        return (16, signed)
+    if 'long' in toks:
+        return (64, signed)
+    return (32, signed)
+
+
+def _typedefs(prog):
+    """alias name -> spelled definition, for the integer type aliases the library itself declares (`typedef uint32_t iv_round_t;`).
+    The facts give the type of an expression as it is spelled; what an alias stands for is not in them (wanted core change), so the
+    declarations are read from the headers and sources of the tree."""
+    cached = prog.__dict__.get('_h06_typedefs')
+    if cached is not None:
+        return cached
+    import os
+    from .. import core as _core
+    out = {}
+    src = os.path.join(_core.REPO, 'src')
+    for base, _dirs, files in os.walk(src):
+        for fn in files:
+            if not fn.endswith(('.h', '.c')):
+                continue
+            try:
+                text = open(os.path.join(base, fn), errors='replace').read()
+            except OSError:
+                continue
+            if 'typedef' not in text:
+                continue
+            for m in re.finditer(r'\btypedef\s+([A-Za-z_][\w\s]*?)\s+([A-Za-z_]\w*)\s*;', text):
+                out.setdefault(m.group(2), set()).add(' '.join(m.group(1).split()))
+    prog.__dict__['_h06_typedefs'] = out
+    return out
+
+
+def int_ctype(prog, name, size=None, depth=0):
+    """canonical integer type of a spelled type: ('i', bits, signed) when the spelling resolves to a C integer type (keywords, the
+    <stdint.h>/<sys/types.h> names, an alias declared in the tree); ('n', spelling) for anything else (compared by spelling only).
+    `size` (bytes, from the record layout) overrides the width of a resolved type: the layout is what the compiler laid out."""
+    if not name:
+        return ('n', '?')
+    toks = [t for t in str(name).replace('*', ' * ').split() if t not in _QUALS]
+    sp = ' '.join(toks)
+    r = None
+    if '*' not in toks and '[' not in sp and '(' not in sp:
+        r = _basic_int(toks)
+        if r is None and len(toks) == 1:
+            m = _FIXED.match(toks[0])
+            if m:
+                r = (int(m.group(4)), not (m.group(1) or m.group(2)))
+            elif toks[0] in _NAMED:
+                r = _NAMED[toks[0]]
+            elif depth < 6:
+                defs = _typedefs(prog).get(toks[0]) or ()
+                rs = {int_ctype(prog, d, None, depth + 1) for d in defs}
+                if len(rs) == 1 and list(rs)[0][0] == 'i':
+                    r = list(rs)[0][1:]
+    if r is None:
+        return ('n', sp) if size is None else ('n', sp, size * 8)
+    return ('i', size * 8 if size else r[0], r[1])
+
+
+def ctype_text(c):
+    if c[0] == 'i':
+        return '%s %d-bit integer' % ('signed' if c[2] else 'unsigned', c[1])
+    return '`%s`' % c[1]
+
+
+def field_ctype(prog, key):
+    fd = _member_type(prog, key)
+    if not fd:
+        raise AnalysisBroken('no layout facts for %s.%s' % key)
+    return int_ctype(prog, fd.get('type'), fd.get('size'))
+
+
+def field_whole(prog, key):
+    """the member occupies a whole object of its type: no other member of its (non-union) record starts inside it (two bit-fields
+    that share a storage unit do)"""
+    rec = prog.records.get(key[0]) or {}
+    fd = _member_type(prog, key)
+    if rec.get('union') or not fd or fd.get('offset') is None or not fd.get('size'):
+        return True
+    lo, hi = fd['offset'], fd['offset'] + fd['size']
+    return not any(o is not fd and o.get('offset') is not None and lo <= o['offset'] < hi for o in rec.get('fields') or ())
+
+
+_VALUE_OPS = ('+', '-')
+_CMP_OPS = ('==', '!=', '<', '<=', '>', '>=')
+
+
+def value_nodes(x):
+    """the typed nodes through which the *value* of expression x flows unchanged (up to +-constant): variables, member reads, casts to a
+    non-pointer type, results of calls; through loads, parentheses, `?:` arms, ++/--, nested assignments and + / -.  Comparisons,
+    logical operators, call arguments and array indices do not carry the value."""
+    while isinstance(x, dict) and x.get('k') in ('load', 'paren', 'stmtexpr') and 'e' in x:
+        x = x['e']
+    if not isinstance(x, dict):
+        return
+    k = x.get('k')
+    if k == 'cast':
+        if '*' in str(x.get('to', '')):
+            return
+        yield x
+        yield from value_nodes(x.get('e'))
+    elif k in ('var', 'member', 'call', 'deref', 'index'):
+        yield x
+    elif k == 'incdec':
+        yield from value_nodes(x.get('e'))
+    elif k == 'assign':
+        yield from value_nodes(x.get('l'))
+        yield from value_nodes(x.get('r'))
+    elif k == 'cond':
+        yield from value_nodes(x.get('a'))
+        yield from value_nodes(x.get('b'))
+    elif k == 'bin' and x.get('op') in _VALUE_OPS:
+        yield from value_nodes(x.get('l'))
+        yield from value_nodes(x.get('r'))
+
+
+def node_type(n):
+    k = n.get('k')
+    if k == 'cast':
+        return n.get('to')
+    return n.get('type')
+
+
+def describe_node(n):
+    k = n.get('k')
+    if k == 'cast':
+        return 'cast (%s) of %s' % (n.get('to'), canon(n.get('e')))
+    if k == 'call':
+        return 'result of %s()' % (n.get('callee') or canon(n.get('fnexpr')))
+    if k == 'var' and str(n.get('name', '')).startswith('$ret'):
+        return 'result of an inlined helper'
+    return canon(n)
+
+
+class RoundTypes:
+    """Flow-insensitive classification of the round values of one inlined root: a *carrier* is a local (also: a parameter of an
+    inlined helper, the result temporary of one) that is assigned an expression whose value comes from a task's round stamp ('S'),
+    from the round counter ('C') or from another carrier."""
+
+    def __init__(self, prog, g):
+        self.prog, self.g = prog, g
+        self.carriers = {}           # name -> set of 'S' / 'C'
+        self.defs = {}               # name -> [(store event, lhs var node)]
+        stores = [e for e in g.events() if e['ev'] == 'store' and e.get('op') == '=' and 'rhs' in e and local_name_exact(e['lhs'])]
+        changed = True
+        while changed:
+            changed = False
+            for e in stores:
+                n = local_name_exact(e['lhs'])
+                t = self.tags(e['rhs'])
+                if t - self.carriers.get(n, set()):
+                    self.carriers[n] = self.carriers.get(n, set()) | t
+                    changed = True
+        for e in stores:
+            n = local_name_exact(e['lhs'])
+            if n in self.carriers and self.tags(e['rhs']):
+                self.defs.setdefault(n, []).append(e)
+
+    def tags(self, x):
+        out = set()
+        for n in value_nodes(x):
+            if n.get('k') == 'member':
+                key = (n.get('record'), n.get('field'))
+                if key == STAMP:
+                    out.add('S')
+                elif key == COUNTER:
+                    out.add('C')
+            elif n.get('k') == 'var':
+                out |= self.carriers.get(n.get('name'), set())
+        return out
+
+    def comparisons(self):
+        """[(bin node, loc, origin event or None)] of the comparisons one side of which is a stamp value and the other a counter value"""
+        out = []
+
+        def scan(x, loc, e):
+            for n in walk(x):
+                if n.get('k') == 'bin' and n.get('op') in _CMP_OPS:
+                    a, b = self.tags(n.get('l')), self.tags(n.get('r'))
+                    if ('S' in a and 'C' in b) or ('C' in a and 'S' in b):
+                        out.append((n, n.get('loc') or loc, e))
+        for blk in self.g.blocks.values():
+            for e in blk.events:
+                if e['ev'] in ('store', 'call', 'ret'):
+                    for key in ('rhs', 'args', 'value', 'fnexpr'):
+                        if key in e and isinstance(e[key], (dict, list)):
+                            scan(e[key], e.get('loc'), e)
+            if blk.term and isinstance(blk.term.get('cond'), dict):
+                scan(blk.term['cond'], blk.term.get('loc') or (blk.events[-1].get('loc') if blk.events else None), None)
+        return out
+
+
+def local_name_exact(x):
+    """name of the local / parameter when x is that variable itself (no cast, no load in between), else None"""
+    while isinstance(x, dict) and x.get('k') == 'paren':
+        x = x.get('e')
+    if isinstance(x, dict) and x.get('k') == 'var' and x.get('vk') in ('local', 'param'):
+        return x['name']
+    return None
